@@ -451,13 +451,18 @@ class Driver:
                 if len(ent["witnesses"]) < 6:
                     ent["witnesses"].append((job, dict(x, detail=x["detail"] + tail, fixed_sig=sig)))
             return
-        sig = f"unreadable:{lang}:column:{col}"
-        ent = self.struct.setdefault(sig, {"n": 0, "witnesses": []})
-        ent["n"] += 1
-        if len(ent["witnesses"]) < 6:
-            ent["witnesses"].append((job, {"rel": rel, "lang": lang, "inv": "unreadable", "construct": f"column:{col}",
-                                           "detail": "values of different types share one column" + tail,
-                                           "fixed_sig": sig}))
+        # Not explained by a body-valued attribute: scalar values of different types share a column (e.g. a C
+        # call_stmt with name = 0 next to string names). Nothing readable is emitted for the file, which the statement
+        # of C03 allows; that the failed write is swallowed and leaves a truncated file is loader behaviour (C15).
+        # Recorded as evidence with the witness, not judged here.
+        self.chk.count("single files whose unreadable bundle is due to mixed scalar types in one column "
+                       "(evidence only, not judged by C03)")
+        lst = self.chk.extra.setdefault("unreadable_single_file_bundles", [])
+        if len(lst) < 10:
+            data = s.data if isinstance(s, Src) else s
+            lst.append({"lang": lang, "column": col, "file": rel, "error": msg[:200],
+                        "origin": getattr(s, "origin", None), "edits": getattr(s, "edits", None),
+                        "text": data[:800].decode("utf-8", "replace")})
 
     def single_file_death(self, job, r):
         """A project of one file whose monitored run did not come back with a result."""
